@@ -63,8 +63,12 @@ def gen_case(ctx, stream, idx):
         if p["typ"] == "Optional[str]" and r.random() < 0.3:
             p["typ"] = r.choice(("Optional[dict]", "Optional[list]"))
             p.pop("default", None)
-    if r.random() < 0.25:
+    k_ = r.random()
+    if k_ < 0.25:
         ir["doc"] = ""
+    elif k_ < 0.6:
+        from vcdd.gen import docgen
+        ir["doc"] = docgen.header(r, r.randint(1, 3))  # several lines / paragraphs of prose about the interface itself
     if ir["params"] and r.random() < 0.25:
         # identifiers with a meaning elsewhere in the code base: a name ending in `kwargs` keeps its declared type
         from collections import OrderedDict
@@ -181,6 +185,12 @@ def post_json_schema(intermediate_repr, result, OLD):
             if m is not None:
                 pre = "Optional[" if p["typ"].startswith("Optional[") else ""
                 p["typ"] = "%sLiteral[%s]%s" % (pre, ", ".join(map(repr, sorted(m))), "]" if pre else "")
+    # the interface's own description comes back character for character (it is the schema's description)
+    P.monitor("roundtrip.description.compared")
+    if (back.get("doc") or "").strip() != (ir.get("doc") or "").strip():
+        P.deviation("json_schema.roundtrip.description.changed|lines=%d" % min(3, (ir.get("doc") or "").count("\n") + 1),
+                    "round trip: description %r came back as %r" % ((ir.get("doc") or "")[:80], (back.get("doc") or "")[:80]),
+                    {"stream": CUR.get("stream"), "idx": CUR.get("idx"), "ir": ir, "schema": schema})
     for d in cmp_ir(exp, got, returns=True):
         generic = "json_schema.roundtrip.%s.%s.%s" % (d["where"], d["field"], d["how"])
         P.deviation(generic + "|t=%s,d=%s" % (d["tkind"], d["dkind"]),
